@@ -121,7 +121,7 @@ def direct_part(chk, prop, tier, model_exe, stats, budget="run"):
         n_per = 64
         runs = [("opt", False)]
         # a slice of the configurations also through the portable code path
-        noopt_cfgs = [c for i, c in enumerate(cfgs) if i % 6 == 0]
+        noopt_cfgs = [c for i, c in enumerate(cfgs) if i % 12 == 0]
     else:
         cfgs = S.thorough_configs(r)
         n_per = 48
